@@ -1,5 +1,7 @@
 from __future__ import annotations
 
+import re
+import shlex
 from collections.abc import MutableMapping
 
 from jinja2 import Environment, Template, meta
@@ -15,6 +17,11 @@ def _check_template(name: str, source: str) -> None:
             f"Template '{name}' does not contain the "
             f"mandatory placeholder 'streamflow_command'."
         )
+
+
+def _double_quote(value: str) -> str:
+    # Inside double quotes, a POSIX shell only interprets `$`, backquote, `"` and `\`
+    return '"{}"'.format(re.sub(r'([$`"\\])', r"\\\1", value))
 
 
 class CommandTemplateMap:
@@ -50,12 +57,15 @@ class CommandTemplateMap:
             streamflow_command=command,
             streamflow_environment=(
                 " && ".join(
-                    [f'export {key}="{value}"' for (key, value) in environment.items()]
+                    [
+                        f"export {key}={_double_quote(str(value))}"
+                        for (key, value) in environment.items()
+                    ]
                 )
                 if environment is not None
                 else ""
             ),
-            streamflow_workdir=workdir,
+            streamflow_workdir=shlex.quote(workdir) if workdir is not None else None,
             **kwargs,
         )
 
